@@ -127,6 +127,7 @@ func main() {
 	list := flag.Bool("list", false, "list registered properties")
 	manifest := flag.Bool("manifest", false, "print per-property manifest metadata as JSON")
 	flag.Parse()
+	addRound2Docs()
 	start := time.Now()
 	if *list {
 		for _, id := range propIDs() {
